@@ -1791,10 +1791,10 @@ REGISTRY.setdefault("C06", []).append(c06_transfer_split)
 IO_SLACK = 4096  # one page-sized chunk beyond the bytes that actually arrived
 
 
-def _io_fill_buffer(env, prop):
-    """symbolic run of IoReader::fill_buffer; the C04 and the C20 obligation read different facts off the same paths"""
+def _io_fill_buffer(env, prop, which="fill_buffer"):
+    """symbolic run of IoReader::fill_buffer (or of the default Read::read_bytes); the C04 and the C20 obligation read different facts off the same paths"""
     senv = env.crate("serde_amqp")
-    fn = senv.fn(r"^ioread::<impl at [^>]*>::fill_buffer$")
+    fn = senv.fn(r"^ioread::<impl at [^>]*>::fill_buffer$" if which == "fill_buffer" else r"^read::Read::read_bytes$")
     ex = senv.executor(max_visits=6)
     N = BV64("len.requested")
     L0 = BV64("buf.len0")
@@ -1821,6 +1821,12 @@ def _io_fill_buffer(env, prop):
         w = world(st)
         grow(st, w["len"] + argvals[1])
         return mir.Agg("unit")
+
+    def m_with_capacity(ex_, st, callee, args, argvals, dty):
+        w = world(st)
+        grow(st, argvals[0])
+        w["len"] = z3.BitVecVal(0, 64)
+        return mir.Agg("vec")
 
     def m_truncate(ex_, st, callee, args, argvals, dty):
         w = world(st)
@@ -1916,10 +1922,11 @@ def _io_fill_buffer(env, prop):
         (r"^Vec::<u8>::len$", m_len),
         (r"^Vec::<u8>::resize$", m_resize),
         (r"^Vec::<u8>::(reserve|reserve_exact)$", m_reserve),
+        (r"^Vec::<u8>::with_capacity$", m_with_capacity),
         (r"^Vec::<u8>::truncate$", m_truncate),
         (r"^Vec::<u8>::extend_from_slice$", m_extend),
         (r"as Index(Mut)?<(std::ops::)?Range\w*(<usize>)?>>::index(_mut)?$", m_index),
-        (r"as (std::io::)?Read>::read_exact$", m_read_exact),
+        (r"as (std::io::|read::)?Read(<'_>)?>::read_exact$", m_read_exact),
         (r"as (std::io::)?Read>::read$", m_read),
     ]
     w = mir.Agg("world")
@@ -1927,16 +1934,23 @@ def _io_fill_buffer(env, prop):
     w["events"], w["reads"] = (), ()
     rd = mir.Agg("ioreader")
     paths = ex.run(fn, {"_1": mir.Ref(("@rd",), True), "@rd": rd, "_2": N, "@world": w})
-    hyp = ex.assumptions + [z3.ULT(L0, 1 << 32), z3.ULT(A0, 3 * IO_SLACK)]
+    hyp = ex.assumptions + [z3.ULT(L0, 1 << 32), z3.ULT(A0, 3 * IO_SLACK)] + ([L0 == 0] if which != "fill_buffer" else [])
     bounds = [f"requested length: every 64-bit value; bytes already buffered < 2^32; bytes the reader can still deliver < {3 * IO_SLACK} (so at most 3 chunk iterations; more is shown infeasible)"]
     assumes = ["Vec<u8>::len/resize/reserve/truncate/extend_from_slice and slice indexing per their documented contracts", "io::Read::read_exact(buf) either fills buf completely (reader had >= buf.len() bytes) or fails; io::Read::read(buf) returns Ok(k) with any k <= buf.len() (short reads allowed) or fails"]
     return senv, fn, paths, hyp, (N, L0, A0), bounds, assumes
 
 
 def c04_io_fill_buffer(env):
-    o = Obligation("c04_io_fill_buffer", "C04")
-    o.desc = "IoReader::fill_buffer(len) with len taken from a size field on the wire (str/sym/vbin lengths, sym32 descriptors): at every point the internal buffer is asked to hold at most the bytes that really arrived plus one 4 KiB chunk, whatever len claims; no arithmetic overflow or out-of-range slice; the loop ends once the reader runs dry"
-    senv, fn, paths, hyp, (N, L0, A0), o.bounds, o.assumes = _io_fill_buffer(env, "C04")
+    return [_c04_io_buffer(env, "fill_buffer"), _c04_io_buffer(env, "read_bytes")]
+
+
+def _c04_io_buffer(env, which):
+    o = Obligation("c04_io_" + which, "C04")
+    if which == "fill_buffer":
+        o.desc = "IoReader::fill_buffer(len) with len taken from a size field on the wire (str/sym/vbin lengths, sym32 descriptors): at every point the internal buffer is asked to hold at most the bytes that really arrived plus one 4 KiB chunk, whatever len claims; no arithmetic overflow or out-of-range slice; the loop ends once the reader runs dry"
+    else:
+        o.desc = "Read::read_bytes(n) (default method, used by the io reader for owned str/symbol/binary with n from the size field): the vector is asked to hold at most the bytes that really arrived plus one 4 KiB chunk, whatever n claims; every read goes through a chunk of at most 4 KiB; no overflow or out-of-range slice; the loop ends once the reader runs dry"
+    senv, fn, paths, hyp, (N, L0, A0), o.bounds, o.assumes = _io_fill_buffer(env, "C04", which)
     o.functions = [fn.name]
 
     def replay(m):
@@ -1976,9 +1990,10 @@ def c04_io_fill_buffer(env):
         for callee in mir.callees(f):
             if re.search(r"Vec::<u8>::(resize|reserve|reserve_exact|with_capacity|extend_from_slice|from_elem)|vec::from_elem", callee):
                 growers.append(f"{name.split('::')[-1]} -> {callee}")
-    o.prove("only-fill_buffer-sizes-the-buffer-from-a-length", [], z3.BoolVal(not growers), replay=replay)
-    o.functions += [k for k in senv.fns if re.match(r"^ioread::<impl at ", k) and k != fn.name][:12]
-    return [o]
+    if which == "fill_buffer":
+        o.prove("only-fill_buffer-sizes-the-buffer-from-a-length", [], z3.BoolVal(not growers), replay=replay)
+        o.functions += [k for k in senv.fns if re.match(r"^ioread::<impl at ", k) and k != fn.name][:12]
+    return o
 
 
 def c20_io_fill_buffer(env):
@@ -2474,3 +2489,86 @@ def c10_abort(env):
 
 
 REGISTRY.setdefault("C10", []).append(c10_abort)
+
+
+# ---- C19: the SASL client side: SCRAM server proof and the outcome code ---------------------------
+
+
+def c19_scram_outcome(env):
+    o = Obligation("c19_scram_client_needs_the_server_proof", "C19")
+    o.desc = "SaslProfile::on_frame on a sasl-outcome: with a SCRAM profile an OK outcome is passed on as success only after validate_server_final has checked the server signature carried in additional-data and returned Ok -- an OK outcome without additional-data is an error, not a success"
+    fn = env.fn(r"^sasl_profile::<impl at [^>]*>::on_frame$")
+    o.functions = [fn.name]
+    o.bounds = ["one call; every SaslProfile variant; every outcome code; additional-data present or absent"]
+    o.assumes = ["ScramClient::validate_server_final returns Ok only for a valid server signature over the exchange (the crate's RFC-vector unit tests; HMAC/PBKDF2 are outside solver reach)"]
+    if "SaslProfile" not in env.enums or "ScramSha256" not in env.enums["SaslProfile"]:
+        raise mir.Unsupported("SaslProfile enum with SCRAM variants not found")
+    P = env.enums["SaslProfile"]
+    F = env.enums["Frame"]
+    if "Outcome" not in F:
+        raise mir.Unsupported("sasl Frame enum not found")
+    ex = env.executor(max_visits=3)
+    prof = mir.Agg("profile")
+    prof_d = z3.BitVec("profile.variant", 64)
+    prof["#d"] = prof_d
+    frame = mir.Agg("frame")
+    frame["#d"] = z3.BitVecVal(F["Outcome"], 64)
+    outcome = mir.Agg("outcome")
+    code = mir.Agg("code")
+    code_d = z3.BitVec("outcome.code", 64)
+    code["#d"] = code_d
+    data = mir.Agg("additional_data")
+    data_d = z3.BitVec("outcome.additional_data.is_some", 64)
+    data["#d"] = data_d
+    outcome[env.fidx("SaslOutcome", "code")] = code
+    outcome[env.fidx("SaslOutcome", "additional_data")] = data
+    v = mir.Agg("Outcome")
+    v[0] = outcome
+    frame[("as", "Outcome")] = v
+
+    def m_as_ref(ex_, st, callee, args, argvals, dty):
+        x = argvals[0]
+        if isinstance(x, mir.Ref):
+            cont, key = ex_.resolve(st, list(x.path))
+            x = cont.get(key)
+        r = mir.Agg("Option")
+        if isinstance(x, mir.Agg):
+            if "#d" not in x:
+                ex_.new_discr(st, x, "Option")
+            r["#d"] = x["#d"]
+        sm = mir.Agg("Some")
+        sm[0] = mir.Agg("ref")
+        r[("as", "Some")] = sm
+        return r
+
+    ex.models = [(r"Option::<.*>::as_ref$", m_as_ref)]
+    paths = ex.run(fn, {"_1": mir.Ref(("@prof",), True), "@prof": prof, "_2": frame, "_3": mir.Agg("hostname")})
+    scram = [P[k] for k in ("ScramSha1", "ScramSha256", "ScramSha512")]
+    is_scram = z3.Or(*[prof_d == k for k in scram])
+    hyp = ex.assumptions + [z3.Or(*[prof_d == k for k in P.values()]), z3.ULE(code_d, 4), z3.ULE(data_d, 1)]
+
+    def replay(m):
+        cmds = ["scram_rogue 0", "scram_rogue 1", "scram_rogue 2"]
+        return cmds, (lambda outs: any(js.get("panic") or js["client_proceeded"] for js in outs))
+
+    n = 0
+    for i, p in enumerate(paths):
+        if p.end != "return" or not isinstance(p.ret, mir.Agg):
+            continue
+        ok = p.ret["#d"] == 0
+        H = hyp + p.cond + [ok, is_scram, code_d == 0]
+        s = z3.Solver()
+        s.add(*H)
+        if s.check() != z3.sat:
+            continue
+        n += 1
+        vals = [c for c in p.calls if re.search(r"ScramClient::validate_server_final$", c[0])]
+        o.prove(f"path{i}:success-only-with-additional-data", H, data_d == 1, replay=replay)
+        o.prove(f"path{i}:success-only-after-checking-the-server-signature", H, z3.BoolVal(len(vals) == 1), replay=replay)
+        if len(vals) == 1 and isinstance(vals[0][3], mir.Agg) and "#d" in vals[0][3]:
+            o.prove(f"path{i}:success-only-if-the-check-passed", H, vals[0][3]["#d"] == 0, replay=replay)
+    o.cover("a SCRAM success path exists", [z3.BoolVal(n > 0)])
+    return [o]
+
+
+REGISTRY.setdefault("C19", []).append(c19_scram_outcome)
